@@ -35,6 +35,7 @@ type Plan struct {
 	Pid          int            `json:"pid,omitempty"`
 	Hostname     string         `json:"hostname,omitempty"`
 	StatDelaysUs map[string]int `json:"stat_delays_us,omitempty"`
+	TimersEarly  bool           `json:"timers_early,omitempty"`
 	Faults       []Fault        `json:"faults,omitempty"`
 }
 
